@@ -871,6 +871,41 @@ class Interp:
             return self._distribute_ite(f, args, kwargs, node)
         if self.depth >= self.MAX_DEPTH:
             raise Unsupported(f"call depth exceeded at {f.qual}")
+        memo_key = self._cache_key(f, args, kwargs)
+        if memo_key is not None:
+            hit = self.__dict__.setdefault('_cache_memo', {}).get(memo_key)
+            if hit is not None:
+                return hit[0]        # functools.cache hands out the SAME object again
+            v = self._call_body(f, args, kwargs, node)
+            self._cache_memo[memo_key] = (v, args, kwargs)      # (arguments kept alive: keys use identities)
+            return v
+        return self._call_body(f, args, kwargs, node)
+
+    def _cache_key(self, f, args, kwargs):
+        """key of a functools.cache / lru_cache'd function call, or None if the function is not cached.  Plain values
+        are keyed by value; objects and symbolic values by identity (CPython uses __hash__/__eq__: equal-but-distinct
+        objects share an entry there — that direction is covered by the separate cache-transparency obligations)."""
+        if f.cls is None:
+            return None
+        name = f.qual.split('.')[-1]
+        decs = f.cls.decorators.get(name, [])
+        if f.cls.methods.get(name) is not f.node:
+            return None
+        if not any(d.split('(')[0].split('.')[-1] in ('cache', 'lru_cache') for d in decs):
+            return None
+
+        def k(a):
+            if a is None or isinstance(a, (str, int, bool, Fraction, float)):
+                return ('v', type(a).__name__, a)
+            if isinstance(a, tuple):
+                return ('t',) + tuple(k(x) for x in a)
+            if isinstance(a, SegStr):        # equal texts hit the same entry, as equal str objects do in CPython
+                return ('s',) + tuple(q if isinstance(q, str) else (type(q).__name__, str(getattr(q, 'value', getattr(q, 'term', id(q)))))
+                                      for q in a.parts)
+            return ('id', id(a))
+        return (f.qual, tuple(k(a) for a in args), tuple(sorted((n, k(v)) for n, v in kwargs.items())))
+
+    def _call_body(self, f, args, kwargs, node):
         parent = f.closure if f.closure is not None else Env(None, self.globals)
         env = Env(parent)
         if f.cls is not None:
@@ -1000,6 +1035,22 @@ class Interp:
         if isinstance(op, ast.Add) and isinstance(cur, list):
             cur.extend(self.iterate(v, node))
             return cur
+        from .npmodel import NpArr
+        from . import builtins_ as B
+        if isinstance(cur, NpArr):
+            # numpy: `a op= b` updates the array object IN PLACE (every alias of it sees the new values)
+            r = self.binop(op, cur, v, node)
+            if isinstance(r, NpArr) and r.shape == cur.shape:
+                cur.data = r.data
+                return cur
+            return r
+        if isinstance(cur, B.SetV) and isinstance(op, (ast.BitOr, ast.BitAnd, ast.Sub)):
+            r = self.binop(op, cur, v, node)
+            if isinstance(r, B.SetV):
+                B.owner_check(self, cur, getattr(node, 'lineno', None))
+                cur.items[:] = r.items
+                return cur
+            return r
         return self.binop(op, cur, v, node)
 
     def assign(self, t, v, env):
